@@ -98,3 +98,50 @@ func init() {
 		return 0
 	}
 }
+
+func init() {
+	// `vcluster-probe-push`: bring-up smoke test of the push-on-write path.
+	rig.SubCommands["vcluster-probe-push"] = func(args []string) int {
+		base, err := os.MkdirTemp("/var/tmp", "verif-vcl-probe-")
+		if err != nil {
+			fmt.Println(err)
+			return 2
+		}
+		defer os.RemoveAll(base)
+		src := newProc(base, "src")
+		remote := filepath.Join(base, "remotes", "d")
+		os.MkdirAll(remote, 0o755)
+		os.WriteFile(src.Cfg, []byte(plainYAML(src, map[string]string{"dolt_replicate_to_remote": "origin",
+			"dolt_replication_remote_url_template": "file://" + filepath.Join(base, "remotes") + "/{database}"})), 0o644)
+		if err := src.start(); err != nil {
+			fmt.Println("start:", err, tailFile(src.LogPath, 2000))
+			return 1
+		}
+		defer src.stop(syscall.SIGKILL)
+		x, err := openSession(src.dsn(""))
+		if err != nil {
+			fmt.Println(err)
+			return 1
+		}
+		for _, q := range []string{"create database d", "use d", "create table t (w int, n int, j int, primary key (w,n,j))",
+			"insert into t values (0,0,0)", "call dolt_commit('-Am','setup')", "call dolt_branch('b1')"} {
+			r, err := x.Query(q)
+			w, _ := x.warnings()
+			fmt.Println(q, "->", r, err, w)
+		}
+		ro, err := startRemoteObs(remote, filepath.Join(base, "robs.log"))
+		if err != nil {
+			fmt.Println(err)
+			return 1
+		}
+		defer ro.close()
+		for i := 0; i < 3; i++ {
+			h, err := ro.heads()
+			fmt.Println("remote heads:", h, err)
+			time.Sleep(300 * time.Millisecond)
+		}
+		fmt.Println(tailFile(filepath.Join(base, "robs.log"), 1000))
+		fmt.Println(tailFile(src.LogPath, 1500))
+		return 0
+	}
+}
